@@ -4,7 +4,7 @@
 From Verif Require Import GoSem Conc RecvConc.
 From VerifGen Require Import Access.
 
-(** (i) ChannelMgr.AddChannel / GetChannel each run inside one critical section of ChannelMgr.mu:
+(** (i) ChannelMgr.AddChannel / GetChannel / GetOrAddChannel each run inside one critical section of ChannelMgr.mu:
     every schedule of any number of goroutines equals a sequential order of the calls. *)
 Theorem C19_channelmgr_atomic : forall (progs : list (list mop)) s0 sched,
   let c := exec mgr mop mret mret m_loc0 m_body m_result (init mgr mop mret mret progs s0) sched in
@@ -35,29 +35,10 @@ Theorem C19_mgr_race_free :
 Proof. exact (races_known_nil_race_free Access.ChannelMgr C19_lockset_mgr). Qed.
 Print Assumptions C19_mgr_race_free.
 
-(** (ii) C19_check_then_add: the handler's Get; if !ok {Add}; Get over that atomic table is not
-    atomic. There is a schedule of two first uploads (channel 7, tracks 10 and 11) after which two
-    channel objects exist for the name, the handlers worked on different objects, and the track
-    registered in the replaced object is not visible in the channel. *)
-Theorem C19_two_channels_refuted :
-  exists sched,
-    let w := hexec false (hinit [(7, 10); (7, 11)]) sched in
-    all_doneb w = true /\ objects_of 7 w = [0; 1] /\ visible_tracks 7 w = [11] /\
-    map h_pc (w_threads w) = [PDone 0; PDone 1].
-Proof. exact two_channels_witness. Qed.
-Print Assumptions C19_two_channels_refuted.
-
-(** the same two uploads one after the other: one object, both tracks *)
-Theorem C19_sequential_order_ok :
-  let w := hexec false (hinit [(7, 10); (7, 11)]) [0; 0; 0; 0; 1; 1]%nat in
-  all_doneb w = true /\ objects_of 7 w = [0] /\ visible_tracks 7 w = [10; 11].
-Proof. exact sequential_one_channel. Qed.
-Print Assumptions C19_sequential_order_ok.
-
-(** C19_sequential_equiv, under the stated premise that get-or-create is one atomic step (what a
-    repair has to provide): for every set of uploads and every schedule at most one channel object
-    per name is created, and once all handlers are done every track is registered in the object the
-    table holds for its channel — as in a sequential order. The per-channel work behind it is
+(** (ii) C19_sequential_equiv — about the handler as it is since dab6065 (ch := GetOrAddChannel(...),
+    one atomic step of the table by (i)): for every set of uploads and every schedule at most one channel
+    object per name is created, and once all handlers are done every track is registered in the object
+    the table holds for its channel — as in a sequential order. The per-channel work behind it is
     serialised by recSegCh (one goroutine), where C17's theorems over all upload sequences apply. *)
 Theorem C19_sequential_equiv : forall reqs sched,
   let w := hexec true (hinit reqs) sched in
@@ -65,6 +46,24 @@ Theorem C19_sequential_equiv : forall reqs sched,
   (all_done w -> forall th, In th (w_threads w) -> In (h_track th) (visible_tracks (h_name th) w)).
 Proof. exact atomic_handler_all_registered. Qed.
 Print Assumptions C19_sequential_equiv.
+
+(** Statement about the handler shape BEFORE dab6065 (Get; if !ok {Add}; Get — no longer the code; the
+    harness reproduces it only on a tree where dab6065 is reverted): there is a schedule of two first
+    uploads (channel 7, tracks 10 and 11) after which two channel objects exist for the name and the
+    track registered in the replaced object is not visible in the channel. *)
+Theorem C19_old_handler_two_channels :
+  exists sched,
+    let w := hexec false (hinit [(7, 10); (7, 11)]) sched in
+    all_doneb w = true /\ objects_of 7 w = [0; 1] /\ visible_tracks 7 w = [11] /\
+    map h_pc (w_threads w) = [PDone 0; PDone 1].
+Proof. exact two_channels_witness. Qed.
+Print Assumptions C19_old_handler_two_channels.
+
+(** non-vacuity of C19_sequential_equiv: the schedule that broke the old handler, on the handler as it is *)
+Example C19_same_schedule_now :
+  let w := hexec true (hinit [(7, 10); (7, 11)]) [0; 1; 0; 0; 0; 1; 1; 1]%nat in
+  all_doneb w = true /\ objects_of 7 w = [0] /\ visible_tracks 7 w = [10; 11].
+Proof. vm_compute. repeat split. Qed.
 
 (** (iii) C19_lockset on the regenerated tables. segmentTimelineGenerator is only touched by its
     channel's goroutine: no pair. Receiver and channel: exactly the known unprotected pairs below
